@@ -28,6 +28,8 @@ type gen struct {
 	loads  int  // load events so far
 	symOK  bool
 	maxW   int
+	views  int  // views drawn so far (their final value numbers follow the last of Vals)
+	top    bool // the window is the last of the supported address range
 	far    bool // two clusters of addresses 2^63 apart
 	tiny   bool // mostly 1-2 byte accesses (with a wide window: many separate blocks)
 }
@@ -75,6 +77,13 @@ func (g *gen) constVal(w int) *refeval.J {
 	case 2:
 		for i := range bs {
 			bs[i] = byte(0x10*(i%15+1) + i%16)
+		}
+	case 3: // zero in its low bytes only (up to a whole machine word), the rest is not
+		if w > 1 {
+			for i := 0; i < w && i < g.r.Range(1, 8); i++ {
+				bs[i] = 0
+			}
+			bs[w-1] |= 1
 		}
 	}
 	return refeval.ConstJ(bs)
@@ -126,6 +135,15 @@ func (g *gen) symVal(w int, depth int) *refeval.J {
 
 // value draws a value to store with write width w and returns its index.
 func (g *gen) value(w int) int {
+	if len(g.t.Vals) > 0 && g.r.Chance(1, 8) {
+		// a narrowed view of a constant that is (or will be) stored as well
+		of := g.r.Intn(len(g.t.Vals))
+		if c := g.t.Vals[of]; c.IsConst() && c.Width() > 1 {
+			g.t.Views = append(g.t.Views, View{Of: of, W: g.r.Range(1, c.Width()-1)})
+			g.views++
+			return -g.views // resolved to len(Vals)+k-1 once all values are drawn
+		}
+	}
 	vw := w
 	if g.r.Chance(1, 4) {
 		vw = g.r.Range(1, 20) // value width differs from the write width
@@ -204,16 +222,25 @@ func (g *gen) pickBase() {
 		g.base = 0x7ffffffffff0
 	case 3:
 		g.base = ^uint64(0) - 1024 // ranges stay below 2^64-1
+		if g.r.Bool() {
+			g.top = true // the window ends with the last byte a range may have (2^64-2)
+		}
 	default:
 		g.base = uint64(g.r.Intn(1 << 20))
 	}
 	g.win = []int{8, 16, 32, 64}[g.r.Intn(4)]
-	if g.r.Chance(1, 6) {
+	if g.top {
+		g.base = ^uint64(0) - 1 - uint64(g.win) // base+win = 2^64-1, the exclusive end of the last supported range
+	}
+	if g.r.Chance(1, 6) && !g.top {
 		g.far = true
 	}
 	if g.r.Chance(1, 6) {
 		// a wide window sprinkled with very small pieces: many separate blocks
 		g.win, g.tiny = 256, true
+		if g.top {
+			g.base = ^uint64(0) - 1 - uint64(g.win)
+		}
 	}
 }
 
@@ -262,11 +289,52 @@ func (e *Engine) Generate(r *core.Rand, prop string, tier string) core.Trace {
 			}
 		}
 		g.memOps(nOps(r, tier))
+	}
+	if g.top && prop != "C18" {
+		// no range may reach beyond the last supported byte (2^64-2)
+		limit := ^uint64(0) - 1 // exclusive end of the last supported range is limit+1 = 2^64-1
+		fix := func(op *Op) {
+			if op.K == "blocks" || op.K == "" && op.W == 0 {
+				return
+			}
+			if op.Addr > limit {
+				op.Addr = limit
+			}
+			if room := limit - op.Addr + 1; uint64(op.W) > room {
+				op.W = int(room)
+			}
+		}
+		for i := range t.Ops {
+			fix(&t.Ops[i])
+		}
+		for i := range t.BaseOps {
+			fix(&t.BaseOps[i])
+		}
+		for i := range t.Init {
+			b := &t.Init[i]
+			if b.Begin > limit {
+				b.Begin = limit
+			}
+			if room := limit - b.Begin + 1; uint64(len(b.Hex)/2) > room {
+				b.Hex = b.Hex[:2*room]
+			}
+		}
+	}
+	switch prop {
 	case "C18":
 		t.Obj, g.symOK = "regs", r.Chance(3, 4)
 		t.BytesIO = r.Chance(1, 3)
 		g.regOps(nOps(r, tier))
 	}
+	res := func(ops []Op) {
+		for i := range ops {
+			if ops[i].V < 0 {
+				ops[i].V = len(t.Vals) - ops[i].V - 1
+			}
+		}
+	}
+	res(t.Ops)
+	res(t.BaseOps)
 	return t
 }
 
